@@ -226,6 +226,37 @@ pub fn rec_wire_bytes(args: &Args) {
         }
         ev_from_bytes(&mut out, &b);
     }
+    // (a3) every option number the crate knows by name (and a few it does not), each with values shaped
+    // like the typed readings of that option might care about: leading zeros, over-long, empty.  The codec
+    // is generic: nothing in it may depend on which option a value belongs to.
+    let mut numbers: Vec<u16> = crate::registry::ALL_OPTIONS.iter().map(|o| u16::from(*o)).collect();
+    numbers.extend([0u16, 2, 9, 10, 16, 21, 36, 100, 2048, 65000]);
+    for &n in &numbers {
+        for zeros in 0..6usize {
+            for x in [None, Some(0u8), Some(1), Some(50), Some(255)] {
+                if thorough || (zeros + n as usize + x.unwrap_or(7) as usize) % 3 == 0 || n == 6 || n == 12 || n == 17 || n == 23 || n == 27 {
+                    let mut v = vec![0u8; zeros];
+                    if let Some(x) = x {
+                        v.push(x);
+                    }
+                    let mut b = HEADERS[(n as usize + zeros) % 4].to_vec();
+                    push_hdr(&mut b, n as u32, v.len());
+                    b.extend(&v);
+                    if zeros % 2 == 1 {
+                        // a second value of the same option, then one of a later option
+                        push_hdr(&mut b, 0, 2);
+                        b.extend([0, 7]);
+                        push_hdr(&mut b, 5, 1);
+                        b.push(9);
+                    }
+                    if x == Some(1) {
+                        b.extend([0xFF, 0x21]);
+                    }
+                    ev_from_bytes(&mut out, &b);
+                }
+            }
+        }
+    }
     // (b) random strings
     for _ in 0..(if thorough { 20000 } else { 2000 }) {
         let n = r.below(40) as usize;
@@ -435,6 +466,15 @@ pub fn rec_wire_build(args: &Args) {
             ev_call(&mut out, &mut p, c);
         }
     }
+    // messages at the default size limit, reached by payload or by options, with and without builder
+    // history that leaves nothing on the wire: to_bytes() must produce the image of everything that fits
+    for k in 0..(if thorough { 120 } else { 24 }) {
+        let target = Packet::MAX_SIZE - 2 + (k % 4);
+        if let Some(p) = sized_message(&mut r, target, k % 8 < 4) {
+            ev_to_bytes(&mut out, &p, None);
+            ev_to_bytes(&mut out, &p, Some(None));
+        }
+    }
     // the header edited / replaced behind set_token's back, then set_token again (same and different values)
     for k in 0..(if thorough { 400 } else { 60 }) {
         out.ev(json!({"op": "reset"}));
@@ -602,6 +642,19 @@ fn sized_message(r: &mut Rng, target: usize, by_options: bool) -> Option<Packet>
         }
         if rest > 0 {
             p.payload = r.bytes(rest - 1);
+        }
+    }
+    // builder history that leaves no byte on the wire: options added and cleared again, options set to
+    // an empty list (the entries stay in the map with no value)
+    if r.chance(1, 2) {
+        for _ in 0..r.range(1, 3) {
+            let n = CoapOption::from(*r.pick(&[1u16, 5, 8, 20, 35, 2000]));
+            if r.chance(1, 2) {
+                p.add_option(n, r.bytes(3));
+                p.clear_option(n);
+            } else {
+                p.set_option(n, LinkedList::new());
+            }
         }
     }
     Some(p)
